@@ -8,8 +8,12 @@
 (*      file the real generator wrote (thread structure, call order, waits).  A difference means the generator   *)
 (*      left the modelled design ("outside the design envelope", informational), never a violation.              *)
 (*                                                                                                              *)
-(* Domain: declarations whose needed providers are functions / injected values with one result each (Bind        *)
-(* aliases allowed); struct expansion and multi-value providers are outside the planner model.                   *)
+(* Domain: every accepted declaration of Decl.tla whose requested type is supplied: functions and injected values *)
+(* with any number of results (Bind aliases allowed) and struct expansions.  At graph level the generator treats  *)
+(* them alike - one node per provider, one node per expanded field (a synchronous provider that requires the      *)
+(* struct); they differ only in the statements: one variable and one done-channel per RESULT, waits on the        *)
+(* channel of the result that is consumed, one close statement for all channels of a call, and a field read       *)
+(* `dst = src.F` that never waits (findOptimalPool always puts it into the pool of the struct's producer).        *)
 EXTENDS Decl
 
 (* ---- the dependency graph as NewGraph builds it (breadth-first from the requested type) ---- *)
@@ -84,9 +88,15 @@ DirectEdges(D) ==
   LET nodes == Range(GraphNodes(D))
   IN {e \in nodes \X nodes : \E k \in DOMAIN DepsOf(D, e[2], ArgSet(D)) : DepsOf(D, e[2], ArgSet(D))[k] = e[1]}
 
-IsMatching(M) == \A e, f \in M : e # f => e[1] # f[1] /\ e[2] # f[2]
-MaxMatching(E) == LET sizes == {Cardinality(M) : M \in {X \in SUBSET E : IsMatching(X)}}
-                  IN CHOOSE s \in sizes : \A t \in sizes : t <= s
+(* size of a maximum matching (every edge is either left out, or taken together with a maximum matching of the   *)
+(* edges it does not touch); the generator computes the same number with augmenting paths                      *)
+RECURSIVE MaxMatching(_)
+MaxMatching(E) == IF E = {} THEN 0
+                  ELSE LET e == CHOOSE x \in E : TRUE
+                           with == 1 + MaxMatching({f \in E : f[1] # e[1] /\ f[2] # e[2]})
+                           \* leaving e out can only help if another edge uses one of its end points
+                           without == IF \E f \in E \ {e} : f[1] = e[1] \/ f[2] = e[2] THEN MaxMatching(E \ {e}) ELSE 0
+                       IN IF with >= without THEN with ELSE without
 
 NumPools(D) == Len(GraphNodes(D)) - MaxMatching(DirectEdges(D))
 
@@ -193,8 +203,8 @@ PlanView(D) ==
   IN [main |-> view(T.main), goroutines |-> [k \in DOMAIN T.goroutines |-> view(T.goroutines[k])]]
 
 (* ---- the plan as a PROGRAM of Injector.tla (what generateStmts / InjectorProviderCallStmt.Stmt emit) ---- *)
-VarOf(n) == "v_" \o n
-ChanOf(n) == "c_" \o n
+VarOf(n, k) == "v_" \o n \o "_" \o ToString(k)
+ChanOf(n, k) == "c_" \o n \o "_" \o ToString(k)
 
 Instr(op, line) == [op |-> op, line |-> line, chans |-> <<>>, ctx |-> FALSE, onctx |-> "", rerr |-> "nil", rval |-> "none", p |-> "",
                     args |-> <<>>, rets |-> <<>>, fall |-> FALSE, errck |-> "", src |-> "", field |-> "", dst |-> "", chk |-> FALSE,
@@ -204,16 +214,21 @@ PlanProg(D, idx) ==
   LET T == Threads(D)
       nodes == GraphNodes(D)
       argNodes == SelectSeq(nodes, LAMBDA n : IsArgNode(D, n))
+      provNodes == SelectSeq(nodes, LAMBDA n : ~IsArgNode(D, n))
       needAsync == \E n \in Range(nodes) : NodeAsync(D, n)
       hasErr == \E n \in Range(nodes) : ~IsArgNode(D, n) /\ Prov(D, n).fallible
       hasGo == Len(T.goroutines) > 0
       \* context.Context is a parameter iff a needed provider is Async or the context itself is an unsupplied input
       ctxArg == ArgNode("ctx") \in Range(nodes)
       hasCtx == needAsync \/ ctxArg
-      \* the value of node n lives in a variable; it has a done-channel iff a dependent lives in another pool
-      withChan(n) == \E m \in Range(nodes) : ~IsArgNode(D, m) /\ n \in WaitsOf(D, T, m)
       argVar(t) == IF t = "ctx" THEN "ctx" ELSE "a_" \o t
-      varOfNode(n) == IF IsArgNode(D, n) THEN argVar(CHOOSE t \in AllTypes(D) : ArgNode(t) = n) ELSE VarOf(n)
+      \* the variable a required type is read from: result k of its supplier, or the injector's parameter
+      srcVar(t) == IF Supplied(D, t) THEN VarOf(Sup(D, t)[1], Sup(D, t)[2]) ELSE argVar(t)
+      \* result k of node n has a done-channel iff a dependent living in another pool consumes it (param.Ref(true))
+      crossUse(m, t) == Supplied(D, t) /\ T.poolOf[Sup(D, t)[1]] # T.poolOf[m]
+      withChan(n, k) == \E m \in Range(provNodes) : \E i \in DOMAIN Prov(D, m).requires :
+                           LET t == Prov(D, m).requires[i] IN crossUse(m, t) /\ Sup(D, t) = <<n, k>>
+      nres(n) == Len(Prov(D, n).provides)
       ThreadCode(seq, isMain, base) ==
         LET RECURSIVE Gen(_, _)
             Gen(i, acc) ==
@@ -221,41 +236,49 @@ PlanProg(D, idx) ==
               ELSE LET n == seq[i]
                        P0 == Prov(D, n)
                        ln == base + 40 * i
-                       ws == {m \in WaitsOf(D, T, n) : TRUE}
-                       wseq == SelectSeq(DepsOf(D, n, ArgSet(D)), LAMBDA m : m \in ws)
-                       \* one wait per awaited dependency, in parameter order, duplicates once
+                       reqs == P0.requires
+                       \* one wait per awaited result, in parameter order, duplicates once
+                       wseq == [k \in DOMAIN reqs |-> IF crossUse(n, reqs[k]) THEN ChanOf(Sup(D, reqs[k])[1], Sup(D, reqs[k])[2]) ELSE ""]
                        RECURSIVE Uniq(_, _)
-                       Uniq(q, a) == IF q = <<>> THEN a ELSE Uniq(Tail(q), IF \E k \in DOMAIN a : a[k] = Head(q) THEN a ELSE Append(a, Head(q)))
-                       wu == IF hasGo THEN Uniq(wseq, <<>>) ELSE <<>>
+                       Uniq(q, a) == IF q = <<>> THEN a
+                                     ELSE Uniq(Tail(q), IF Head(q) = "" \/ \E k \in DOMAIN a : a[k] = Head(q) THEN a ELSE Append(a, Head(q)))
+                       \* a field read never waits: the generator relies on it sharing the pool of the struct's producer
+                       wu == IF hasGo /\ P0.kind # "field" THEN Uniq(wseq, <<>>) ELSE <<>>
                        selectForm == hasCtx /\ (~isMain \/ hasErr)
                        waits == [k \in DOMAIN wu |->
-                                   [Instr("wait", ln + k) EXCEPT !.chans = <<ChanOf(wu[k])>>, !.ctx = selectForm,
+                                   [Instr("wait", ln + k) EXCEPT !.chans = <<wu[k]>>, !.ctx = selectForm,
                                                                   !.rerr = IF selectForm THEN "ctx" ELSE "nil",
                                                                   !.rval = IF isMain THEN "zero" ELSE "none",
                                                                   !.rline = ln + 15 + k]]
-                       deps == DepsOf(D, n, ArgSet(D))
-                       call == [Instr("call", ln + 32) EXCEPT !.p = n, !.args = [k \in DOMAIN deps |-> varOfNode(deps[k])],
-                                                              !.rets = <<VarOf(n)>>, !.fall = P0.fallible,
+                       call == IF P0.kind = "field"
+                               THEN [Instr("field", ln + 32) EXCEPT !.src = srcVar(reqs[1]), !.field = P0.field, !.dst = VarOf(n, 1)]
+                               ELSE [Instr("call", ln + 32) EXCEPT !.p = n, !.args = [k \in DOMAIN reqs |-> srcVar(reqs[k])],
+                                                              !.rets = [k \in 1..nres(n) |-> VarOf(n, k)], !.fall = P0.fallible,
                                                               !.errck = IF P0.fallible /\ (~isMain \/ hasErr) THEN "ret" ELSE "",
                                                               !.rerr = IF P0.fallible THEN "err" ELSE "nil",
                                                               !.rval = IF isMain THEN "zero" ELSE "none",
                                                               !.rline = ln + 33]
-                       cls == IF hasGo /\ withChan(n) THEN <<[Instr("close", ln + 34) EXCEPT !.chans = <<ChanOf(n)>>]>> ELSE <<>>
+                       \* one close statement for all done-channels of the call, in result order
+                       cch == SelectSeq([k \in 1..nres(n) |-> IF withChan(n, k) THEN ChanOf(n, k) ELSE ""], LAMBDA c : c # "")
+                       cls == IF hasGo /\ cch # <<>> THEN <<[Instr("close", ln + 34) EXCEPT !.chans = cch]>> ELSE <<>>
                    IN Gen(i + 1, acc \o waits \o <<call>> \o cls)
         IN Gen(1, <<>>)
-      retVar == VarOf(Sup(D, D.ret)[1])
+      retVar == srcVar(D.ret)
       mainCode == ThreadCode(T.main, TRUE, 1000)
                   \o (IF hasGo THEN <<[Instr("egwait", 1900) EXCEPT !.chk = hasErr, !.rerr = IF hasErr THEN "err" ELSE "nil",
                                                                      !.rval = "nil", !.rline = 1901]>> ELSE <<>>)
                   \o <<[Instr("ret", 1950) EXCEPT !.v = retVar, !.rline = 1950]>>
       goCode(k) == ThreadCode(T.goroutines[k], FALSE, 2000 * (k + 1)) \o <<Instr("gend", 2000 * (k + 1) + 990)>>
-      provNodes == SelectSeq(nodes, LAMBDA n : ~IsArgNode(D, n))
       ptype == [k \in DOMAIN argNodes |-> LET t == CHOOSE x \in AllTypes(D) : ArgNode(x) = argNodes[k] IN <<argVar(t), t>>]
               \o (IF needAsync /\ ~ctxArg THEN << <<"ctx", "ctx">> >> ELSE <<>>)
-      vars == [k \in DOMAIN provNodes |-> VarOf(provNodes[k])]
+      RECURSIVE Flat(_, _, _)
+      \* VarOf / ChanOf of every result of every provider node, in discovery order
+      Flat(Op(_, _), i, acc) == IF i > Len(provNodes) THEN acc
+                                ELSE Flat(Op, i + 1, acc \o [k \in 1..nres(provNodes[i]) |-> Op(provNodes[i], k)])
+      vars == Flat(VarOf, 1, <<>>)
   IN [decl |-> D.id, declidx |-> idx, haserr |-> hasErr,
       ptype |-> ptype, vars |-> vars,
-      chans |-> IF hasGo THEN [k \in DOMAIN provNodes |-> ChanOf(provNodes[k])] ELSE <<>>,
+      chans |-> IF hasGo THEN Flat(ChanOf, 1, <<>>) ELSE <<>>,
       egform |-> IF ~hasGo THEN "" ELSE IF hasCtx THEN "withctx" ELSE "plain",
       threads |-> <<mainCode>> \o [k \in DOMAIN T.goroutines |-> goCode(k)],
       vzero |-> [v \in Range(vars) \cup {p[1] : p \in Range(ptype)} \cup {"_"} |-> "nil"],
